@@ -180,6 +180,17 @@ def graph_call(func, ugp, acyclic):
         elif func == "division_with_borders":
             graph.division_connected_variable_groups_with_borders(
                 s, group_size=[None, 2, None, None], is_border=s.bool_array(4), graph=g, **kw)
+        elif func == "division_with_borders_nosize":
+            graph.division_connected_variable_groups_with_borders(
+                s, group_size=None, is_border=s.bool_array(4), graph=g, **kw)
+        elif func == "division_with_borders_allnone":
+            graph.division_connected_variable_groups_with_borders(
+                s, group_size=[None] * 4, is_border=list(s.bool_array(4)), graph=g, **kw)
+        elif func == "division_with_borders_frame":
+            # grid form: the documented argument types are a BoolInnerGridFrame and an IntArray2D
+            from cspuz.grid_frame import BoolInnerGridFrame
+            graph.division_connected_variable_groups_with_borders(
+                s, group_size=s.int_array((2, 3), 1, 6), is_border=BoolInnerGridFrame(s, 2, 3), **kw)
         elif func == "division_variable_groups":
             graph.division_connected_variable_groups(s, graph=g, group_size=2)
         else:
@@ -194,14 +205,15 @@ def graph_call(func, ugp, acyclic):
 GRAPH_FUNCS = ["active_vertices_connected", "active_vertices_connected_grid", "division_connected",
                "active_edges_single_cycle", "active_edges_single_cycle_frame",
                "active_edges_single_path", "active_edges_connected_crossable",
-               "not_adjacent_and_not_segmenting", "division_with_borders", "division_variable_groups"]
+               "not_adjacent_and_not_segmenting", "division_with_borders", "division_variable_groups",
+               "division_with_borders_nosize", "division_with_borders_allnone", "division_with_borders_frame"]
 NO_EXPLICIT_ARG = {"division_connected", "not_adjacent_and_not_segmenting", "division_variable_groups"}
 
 
 def expected_native(func, ugp, acyclic, cfg):
     if func == "division_variable_groups":
         return []
-    if func == "division_with_borders":
+    if func.startswith("division_with_borders"):
         flag = cfg["use_graph_division_primitive"] if ugp is None else ugp
         return ["GRAPH_DIVISION"] if flag else []
     flag = cfg["use_graph_primitive"] if (ugp is None or func in NO_EXPLICIT_ARG) else ugp
@@ -267,7 +279,7 @@ def run_history(case):
                         raise Failure("encoding-choice-wrong|%s|explicit=%s|acyclic=%s" % (func, ugp, acyclic),
                                       observed=obs, expected=dict(native=exp, config=cfg))
                     if ugp is not None and func not in NO_EXPLICIT_ARG:
-                        flag = cfg["use_graph_division_primitive" if func == "division_with_borders"
+                        flag = cfg["use_graph_division_primitive" if func.startswith("division_with_borders")
                                    else "use_graph_primitive"]
                         if flag != ugp:
                             out["disagree"] = True
